@@ -75,7 +75,14 @@ fn enforce_constraints_fd<U: User, E: Engine<U>>(x: LTerm<U, E>) -> Goal<U, E> {
         fngoal | engine,
         state | {
             state.verify_all_bound();
-            let bound_x = state.dstore_ref().keys().cloned().collect::<LTerm<U, E>>();
+            // Label the remaining variables in the order they were created; the iteration order of
+            // the domain store differs from run to run.
+            let mut bound_x = state.dstore_ref().keys().cloned().collect::<Vec<LTerm<U, E>>>();
+            bound_x.sort_by_key(|x| match x.as_ref() {
+                LTermInner::Var(id, _) => Some(*id),
+                _ => None,
+            });
+            let bound_x = LTerm::from_vec(bound_x);
             proto_vulcan!( onceo { force_ans(bound_x) } ).solve(engine, state)
         }
     ])
